@@ -17,7 +17,7 @@ RULE = ('shape A: one logical record, full product of kind x type x payload leng
         'Every descriptor is generated once; non-trivial = more than one segment, or a trailer/pad option, or more '
         'than one record, or a label other than the default; outcome = hash of the decoded record list')
 ASSUMPTIONS = ['most payloads are small (<= 61 bytes); shape G adds payloads of 16 k - 70 k bytes spread over several maximum-size visible records',
-               'encrypted records carry no pad bytes and no encryption packet (the statement does not say what is returned for them)',
+               'encrypted records carry no encryption packet; an encrypted segment with the padding bit keeps its pad bytes (they are cipher text): the whole body is the payload',
                'checksums are not verified by the reader and are filled with marker bytes']
 BOUNDS = {
     'quick': 'shape A <= 2 segments (all kinds/types), shape B 2 records full + 3 records reduced, labels: 7 sequence numbers x 8 lengths x 2 spellings x 4 identifiers',
@@ -55,7 +55,7 @@ def materialise(case):
     for r, rc in enumerate(case['recs']):
         recs.append({
             'eflr': bool(rc['eflr']), 'type': rc['type'], 'payload': payload_for(r, rc['L'], rc.get('lb', 'coded')),
-            'encrypted': bool(rc.get('enc', 0)), 'cuts': rc.get('cuts', []),
+            'encrypted': bool(rc.get('enc', 0)), 'enc_pad_flag': bool(rc.get('encpad', 0)), 'cuts': rc.get('cuts', []),
             'opts': [{'checksum': bool(o[0]), 'trailing': bool(o[1]), 'extra_pad': o[2]} for o in rc.get('opts', [])] or None,
             'newvr': [bool(x) for x in rc.get('newvr', [])] or None,
         })
@@ -174,6 +174,8 @@ def gen_single(tier, eflr, typ):
                             rec = {'eflr': int(eflr), 'type': typ, 'L': L, 'lb': lb, 'cuts': cut,
                                    'opts': [[0, 0, 0]] * n, 'newvr': [0] + list(pack), 'enc': 1}
                             yield {'shape': 'A', 'recs': [rec]}
+                            # the same with the padding bit set on the encrypted segments: the pad is cipher text, nothing is stripped
+                            yield {'shape': 'A', 'recs': [dict(rec, encpad=1)]}
 
 
 REC_LAYOUTS = ['plain', 'tails', 'split', 'splitvr']
